@@ -357,6 +357,45 @@ def r6(ctx, rep):
     rep.check(movers == ["Super(Sort(_))", "Super(Take(_))"], "reorder:movable", f"computes may only move across Sort and (plain) Take; arms returning true: {movers}", file=r["file"], line=mm["l"], fn=r["path"])
 
 
+def r7(ctx, rep):
+    import re
+    rep.rule("C01.R7", "the recognisers of EXCEPT / INTERSECT match exactly the join the std library defines `remove` / `intersect` with", floor=4)
+    syn = ctx.syn
+    src = open(os.path.join(ctx.repo if hasattr(ctx, "repo") else os.environ.get("VERIF_REPO", "/repo"), "prqlc/prqlc/src/semantic/std.prql")).read()
+    want = {}
+    for fn_name in ("intersect", "remove"):
+        m = re.search(r"^let " + fn_name + r" = .*?\(\n(.*?)^\)", src, re.S | re.M)
+        if not m:
+            rep.bad(f"std:{fn_name}", f"definition of `{fn_name}` not found in std.prql")
+            continue
+        body = m.group(1)
+        j = re.search(r"^\s*join\s+(side:(\w+)\s+)?", body, re.M)
+        want[fn_name] = (j.group(2) if j and j.group(2) else "inner").capitalize() if j else None
+        want[fn_name + ":filter-null"] = bool(re.search(r"^\s*filter\s+\(tuple_every \(tuple_map _is_null b\.\*\)\)", body, re.M))
+    for rec, std_name in (("intersect", "intersect"), ("except", "remove")):
+        f = syn.fn("preprocess::" + rec, crate="prqlc")
+        sides = []
+        for n in walk(f["body"]):
+            if n.get("k") == "local" and n.get("else") is not None and n["pat"].get("k") == "p_struct" and last_seg(n["pat"]["p"]) == "Join":
+                d = dict((a, b) for a, b in n["pat"]["f"])
+                sides.append(last_seg(d["side"]["p"]) if "side" in d and d["side"].get("k") == "p_path" else None)
+        rep.check(sides == [want.get(std_name)], f"recogniser:{rec}:side", f"preprocess::{rec} rewrites a join into a set operation; std.prql defines `{std_name}` with a {want.get(std_name)} join, "
+                  f"so the recogniser must match only `JoinSide::{want.get(std_name)}` (found {sides}): any other join of the same shape has different rows", file=f["file"], line=f["l"], fn=f["path"])
+    # `remove` is an anti-join: the recogniser of EXCEPT must also see the null filter
+    f = syn.fn("preprocess::except", crate="prqlc")
+    has_filter = any(n.get("k") == "local" and n.get("else") is not None and "Filter" in show(n["pat"], maxdepth=6) for n in walk(f["body"]))
+    nulls = any(n.get("k") == "call" and last_seg(show(n["f"])) == "all_null" for n in walk(f["body"]))
+    rep.check(want.get("remove:filter-null") and has_filter and nulls, "recogniser:except:null-filter", "EXCEPT is recognised only for a left join followed by the all-null filter on the bottom's columns (std.remove)",
+              file=f["file"], line=f["l"], fn=f["path"])
+    rep.check(want.get("intersect") == "Inner" and want.get("remove") == "Left", "std:sides", f"std.prql: intersect joins inner and remove joins left; found {want}")
+
+
+def r8(ctx, rep):
+    # which rows `take` returns depends on the order in effect: C03's transfer table and ORDER-BY-before-LIMIT rules are necessary for C01 too
+    import C03
+    rep.borrowed(C03.r1_r2, ctx, "C01.R8", "the rows a take returns are those of the order in effect")
+
+
 def run(ctx, rep):
-    for r in (r1, r2, r3, r4, r5, r6):
+    for r in (r1, r2, r3, r4, r5, r6, r7, r8):
         rep.guard(r, ctx)
